@@ -1422,8 +1422,10 @@ evbuffer_pullup(struct evbuffer *buf, ev_ssize_t size)
 		tmp->off = size;
 		size -= old_off;
 		chain = chain->next;
-	} else if (chain->buffer_len - chain->misalign >= (size_t)size) {
-		/* already have enough space in the first chain */
+	} else if (!(chain->flags & EVBUFFER_IMMUTABLE) &&
+	    chain->buffer_len - chain->misalign >= (size_t)size) {
+		/* already have enough space in the first chain (which we may
+		 * only write to if it is not a read-only/shared chain) */
 		size_t old_off = chain->off;
 		buffer = chain->buffer + chain->misalign + chain->off;
 		tmp = chain;
